@@ -15,6 +15,26 @@ theorem create_in_use_refused (t : Tree) (p : Nat) (e : Ent) (h : e.uid ∈ t.ui
     step t (.create p e) = (t, .refused) := by
   simp [step, h]
 
+/-- the identifier of a property group is in use as well: an entity cannot take it -/
+theorem create_pg_uid_refused (t : Tree) (p : Nat) (e : Ent) (h : e.uid ∈ t.pgUids) :
+    step t (.create p e) = (t, .refused) := by
+  simp [step, h]
+
+/-- a property group cannot take the identifier of an entity, nor that of a group of another object -/
+theorem pgSet_in_use_refused (t : Tree) (o : Nat) (g : PG)
+    (h : g.uid ∈ t.uids ∨ t.pgUidElsewhere o g.uid = true) : (step t (.pgSet o g)).2 ≠ .ok := by
+  simp only [step]
+  cases hf : t.findSub o with
+  | none => simp
+  | some s =>
+    simp only
+    split
+    · simp
+    · have : (t.uids.contains g.uid || t.pgUidElsewhere o g.uid) = true := by
+        rcases h with h | h <;> simp [h]
+      rw [if_pos this]
+      simp
+
 /-- **A refused (or impossible) request has no side effect.** -/
 theorem refused_no_effect (t : Tree) (op : Op) (h : (step t op).2 ≠ .ok) : (step t op).1 = t := by
   cases op with
@@ -39,8 +59,11 @@ theorem refused_no_effect (t : Tree) (op : Op) (h : (step t op).2 ≠ .ok) : (st
       split
       · rfl
       · rename_i hg
-        simp only [hg] at h
-        exact absurd rfl h
+        split
+        · rfl
+        · rename_i hu
+          simp only [hg, hu] at h
+          exact absurd rfl h
   | _ => simp only [step] at h ⊢ <;> (repeat' split) <;> simp_all
 
 /-- **Looking an identifier up returns the one entity that owns it.** -/
